@@ -184,6 +184,14 @@ func (cs *Contracts) parseFile(file, pkgPath string) error {
 			key := pkgPath + ":" + cur.Target
 			if kw == "iface" {
 				key = pkgPath + ":iface:" + cur.Target
+				// external interface: "path/to/pkg.Iface.Method"
+				if i := strings.LastIndex(cur.Target, "/"); i >= 0 {
+					rest2 := cur.Target[i+1:]
+					if j := strings.Index(rest2, "."); j >= 0 {
+						key = cur.Target[:i+1+j] + ":iface:" + rest2[j+1:]
+						cur.Trusted = true
+					}
+				}
 			}
 			if _, dup := cs.ByKey[key]; dup {
 				return fmt.Errorf("%s:%d: duplicate contract for %s", file, it.line, key)
